@@ -38,6 +38,10 @@ func circCorpus() []*hc.Case {
 	// D7: OpenCircuit / CloseCircuit stamp notifications with the circuit's clock
 	cs = append(cs, circCase(circParams{Mode: "normal", Opener: openerSpec{Kind: "hystrix", N: 10, Dur: 10 * sec, Pct: 50, Vol: 20}, Closer: closerSpec{Kind: "hystrix", Sleep: sec, HalfOpen: 1, Required: 1}, Live: lv, NCirc: 2},
 		[]circOp{{K: "tick", D: 5}, {K: "open"}, {K: "open"}, {K: "tick", D: 7}, {K: "close"}, {K: "close"}, {K: "open"}}))
+	// a substitute clock that is set BACK between transitions: every stamp is still that call's own reading (C12)
+	cs = append(cs, circCase(circParams{Mode: "normal", Opener: openerSpec{Kind: "consec", Thr: 1}, Closer: closerSpec{Kind: "hystrix", Sleep: sec, HalfOpen: 1, Required: 1}, Live: lv, NCirc: 2, NRun: 1},
+		[]circOp{{K: "tick", D: 20 * sec}, {K: "open"}, {K: "tick", D: -5 * sec}, {K: "close"}, {K: "tick", D: -sec}, {K: "open"}, {K: "tick", D: -3 * sec}, {K: "close"},
+			{K: "begin", ID: 0, Call: &callSpec{HasRun: true, Entry: "execute"}}, {K: "endrun", ID: 0, Res: "err"}}))
 	// D11 (known finding): a panicking half-open probe spends the probe slot
 	{
 		var ops []circOp
